@@ -101,6 +101,9 @@ pub enum Edit {
     ClearStart,
     /// insert a type-neutral instruction group into a parsed body
     InsertNeutral { func: u32, seq: u32, pos: u32, what: u8 },
+    /// insert a terminator (`unreachable`; `return` in a function without results) into a parsed or
+    /// built body: everything behind it in that sequence becomes dead code, the body stays well typed
+    InsertTerminator { func: u32, seq: u32, pos: u32, what: u8 },
     RenameFunc { pick: u32, name: Option<String> },
     RenameModule { name: Option<String> },
     RenameLocal { pick: u32, name: Option<String> },
@@ -168,6 +171,7 @@ impl Op {
                 Edit::SetStart { .. } => "edit_set_start",
                 Edit::ClearStart => "edit_clear_start",
                 Edit::InsertNeutral { .. } => "edit_insert_neutral",
+                Edit::InsertTerminator { .. } => "edit_insert_terminator",
                 Edit::RenameFunc { .. } => "edit_rename_func",
                 Edit::RenameModule { .. } => "edit_rename_module",
                 Edit::RenameLocal { .. } => "edit_rename_local",
